@@ -131,6 +131,48 @@ def relabel(events, rng):
     return out, table
 
 
+def alias_within_class(events, rng):
+    """Like relabel(), but every additional id of a name lies in the SAME class as the original (same top byte) - in the
+    same subclass under another code, or in another subclass: a table merged from two releases of the kernel.  Class and
+    subclass filters are statements about ids, so the capture is a different one; what is decoded from a record is not."""
+    bundled = bundled_codes()
+    used = sorted({e.eventid for e in events if e.eventid not in REAL_FAULT_IDS and e.eventid in bundled})
+    taken = set(bundled)
+    fan = {}
+    for old in used:
+        news = []
+        for _ in range(rng.choice((1, 1, 2))):
+            for _attempt in range(200):
+                sub = (old >> 16) & 0xff if rng.random() < 0.4 else rng.randrange(256)
+                new = (old & 0xff000000) | (sub << 16) | (rng.randrange(1, 0x3fff) << 2)
+                if new not in taken and new not in REAL_FAULT_IDS:
+                    taken.add(new)
+                    news.append(new)
+                    break
+        fan[old] = news + [old]
+    pairs = [(new, bundled[old]) for old, news in fan.items() for new in news if new != old]
+    rng.shuffle(pairs)
+    rest = list(bundled.items())
+    cut = rng.randrange(len(rest) + 1)
+    table = dict(rest[:cut] + pairs + rest[cut:])
+    out, open_choice = [], {}
+    for e in events:
+        if e.eventid not in fan:
+            out.append(e)
+            continue
+        key = (e.tid, e.eventid)
+        if e.func_qualifier in (0, 2) and key in open_choice:
+            chosen = open_choice[key]
+            if e.func_qualifier == 2:
+                del open_choice[key]
+        else:
+            chosen = rng.choice(fan[e.eventid])
+            if e.func_qualifier == 1:
+                open_choice[key] = chosen
+        out.append(mk(e.timestamp, chosen, e.func_qualifier, e.data, e.tid))
+    return out, table
+
+
 def permuted(events_lists, rng):
     """The same captures under a supplied table that gives the ids in use to OTHER names in use (a rotation of the ids
     among the decodable names that occur): what a release that renumbers its calls looks like next to the bundled
